@@ -53,9 +53,10 @@ Definition map_instr (i : instr Z) : instr F :=
   | IAdd _ cid xa xb xc ql qr qc => IAdd F cid xa xb xc (ofZ ql) (ofZ qr) (ofZ qc)
   | IBool _ cid xa ql qm => IBool F cid xa (ofZ ql) (ofZ qm)
   | IHint _ hid ins start nout => IHint F hid (map map_hlexp ins) start nout
+  | ILookup _ es ins start => ILookup F (map map_hlexp es) (map map_hlexp ins) start
   end.
 
-Definition isolve := solve F zero one add mul sub opp div inv eq_dec.
+Definition isolve := solve F zero one add mul sub opp div inv eq_dec (fun x => Some (Z.to_nat (toZ x))).
 Definition ilro := lro F zero.
 Definition iev := ev F zero add mul.
 
